@@ -102,7 +102,7 @@ let () =
              if String.length model > 0 && model.[0] = '!' then begin
                incr n_bad; if !n_bad <= max_report then bad := row () :: !bad
              end else begin
-               if impl <> model then begin
+               if impl <> "-" && impl <> model then begin
                  incr n_mm_impl; if !n_mm_impl <= max_report then mm_impl := row () :: !mm_impl
                end;
                if std <> "-" && std <> model then begin
